@@ -311,7 +311,7 @@ class _Run:
             return
         recv_ast = call.func.value
         recv = self.ev_quiet(recv_ast, st)
-        if tag(recv) == 'g':
+        if tag(recv) == 'g' and tag(t) != 'mcall':
             return  # module-level function such as warnings.warn / np.put: handled by rules
         self.emit('mutcall', s, st, target=recv, base=recv, call=t, note=meth)
         if isinstance(recv_ast, ast.Name) and tag(t) == 'mcall':
@@ -697,6 +697,8 @@ class _Run:
 
     def attr(self, base, name, node, st):
         if tag(base) == 'g':
+            if self._is_data_global(base[1]):
+                return T.mk_attr(base, name)      # attribute / method of a module-level data object
             q = self.p._canon(f'{base[1]}.{name}')
             return ('g', q)
         if name == '__class__' and tag(base) == 'p' and base[1] == 'self' and self.func.cls:
@@ -712,6 +714,23 @@ class _Run:
             if ca is not None:
                 return ('g', f'{ca[0].qname}.{name}')
         return T.mk_attr(base, name)
+
+    def _is_data_global(self, q: str) -> bool:
+        """Is q a module-level *variable* of the package holding data (dict / list / call result other
+        than a logger), as opposed to a module, function or class?"""
+        modq, _, nm = q.rpartition('.')
+        mod = self.p.modules.get(modq)
+        if mod is None or nm not in mod.globals or nm in mod.functions or nm in mod.classes:
+            return False
+        for node in mod.globals[nm]:
+            if isinstance(node, ast.Call):
+                fq = self.p.resolve_static(mod, node.func, None) or ''
+                if fq.startswith('logging.'):
+                    return False
+                return True
+            if isinstance(node, (ast.Dict, ast.List, ast.Set, ast.Tuple, ast.ListComp, ast.DictComp)):
+                return True
+        return False
 
     def ev_Subscript(self, e, st):
         base = self.ev(e.value, st)
